@@ -703,7 +703,8 @@ impl AsyncLeafLoad {
         let leaf_node = Arc::new(leaf::node::LeafNode { inner: page });
 
         #[cfg(nomt_verif)]
-        leaf_cache_verif::observe_insert(&self.read_tx.leaf_cache, self.page_number, &leaf_node);
+        let _verif_order =
+            leaf_cache_verif::observe_insert(&self.read_tx.leaf_cache, self.page_number, &leaf_node);
         self.read_tx
             .leaf_cache
             .insert(self.page_number, leaf_node.clone());
